@@ -79,12 +79,19 @@ Definition tt_states (tt : list row) : list string :=
                           if present (r_next r) then add_new (r_next r) a1 else a1) tt [].
 Definition tt_collect (f : row -> string) (tt : list row) : list string :=
   fold_left (fun acc r => if present (f r) then add_new (f r) acc else acc) tt [].
+(* keyed by the PAIR (action, event) since the fix: commit (the key component of the model keeps the pair's rendering
+   "action|event" only for display; membership is decided on the pair) *)
+Definition sig_mem (a e : string) (acc : list (string * (string * string))) : bool :=
+  existsb (fun kv => String.eqb (fst (snd kv)) a && String.eqb (snd (snd kv)) e) acc.
 Definition tt_actionsigs (tt : list row) : list (string * (string * string)) :=
   fold_left (fun acc r =>
      if present (r_action r) then
-       let k := (r_action r ++ r_event r)%string in
-       if mem String.eqb k acc then acc else acc ++ [(k, (r_action r, r_event r))]
+       if sig_mem (r_action r) (r_event r) acc then acc else acc ++ [((r_action r ++ "|" ++ r_event r)%string, (r_action r, r_event r))]
      else acc) tt [].
+
+(* the loop that closes set_transitions_per_state: a state that is only ever a target gets an empty entry *)
+Definition tps_close (states : list string) (t : tps_t) : tps_t :=
+  fold_left (fun acc s => if mem String.eqb s acc then acc else acc ++ [(s, [])]) states t.
 
 (* CTransitionTableModel(tt) followed by Generate's "events_from_structs" phase *)
 Definition tt_model (tt : list row) (structs protos msgs : list string) : option smodel :=
@@ -94,7 +101,7 @@ Definition tt_model (tt : list row) (structs protos msgs : list string) : option
       Some {| sm_states := tt_states tt;
               sm_events := fold_left (fun acc s => add_new s acc) structs (tt_collect r_event tt);
               sm_actions := tt_collect r_action tt; sm_guards := tt_collect r_guard tt;
-              sm_actionsigs := tt_actionsigs tt; sm_tps := tps;
+              sm_actionsigs := tt_actionsigs tt; sm_tps := tps_close (tt_states tt) tps;
               sm_first := match tt with [] => "NO TT PRESENT!" | r :: _ => r_state r end;
               if_structs := structs; if_protos := protos; if_msgs := msgs |}
   end.
